@@ -560,9 +560,9 @@ def oracle(run, corr, deep, parts=PARTS):
             want = "0 | ind %d %d %d %d %d %s | rts %d %d" % (tn, fn, rssi, toa, len(soft), hx(bytes(x % 256 for x in soft)),
                                                              (fn + adv) % H, tn)
             if a != want:
-                witness({"kind": "trxcon-rx-decode", "prop": "C04", "request": r[:200],
+                witness({"kind": "trxcon-rx-decode", "prop": "C04", "request": r,
                          "fields": {"tn": tn, "fn": fn, "rssi": rssi, "toa256": toa, "nbits": len(soft), "legacy": leg, "fn_advance": adv},
-                         "impl": a[:300], "layout_demands": want[:300]})
+                         "impl": a, "layout_demands": want})
                 break
         corr.distribution["oracle: rx layout PDUs"] = len(reqs)
         # FN beyond the hyperframe and foreign versions are not indicated
@@ -583,7 +583,7 @@ def oracle(run, corr, deep, parts=PARTS):
         for (tn, fn, pwr, bits), r, a in zip(cases, reqs, out):
             want = "0 | %s" % hx(layout_tx(tn, fn, pwr, bits))
             if a != want:
-                witness({"kind": "trxcon-tx-layout", "prop": "C04", "request": r[:200], "impl": a[:300], "layout_demands": want[:300]})
+                witness({"kind": "trxcon-tx-layout", "prop": "C04", "request": r, "impl": a, "layout_demands": want})
                 break
         corr.distribution["oracle: tx layout requests"] = len(reqs)
 
@@ -692,7 +692,7 @@ def replay(run, w):
         return True, "witness %s carries no complete request line" % kind
     a = vf.run_lines([exe], [req])[0]
     if kind in ("trxcon-rx-decode", "trxcon-tx-layout"):
-        return True, "%s: request was shortened in the evidence; re-run ./check for a fresh witness (impl now: %s)" % (kind, a[:120])
+        return a != w.get("layout_demands"), "%s -> %s (the layout demands: %s)" % (req[:120], a[:160], str(w.get("layout_demands"))[:160])
     if kind.endswith("-crash"):
         return a == "CRASH", "%s -> %s (demanded: the callback returns)" % (req[:200], a[:200])
     if kind.endswith("-uninit"):
